@@ -183,7 +183,7 @@ RUNNER = os.path.join(RUNNER_DIR, "runner")
 def runner_inputs_hash():
     parts = []
     for rel in project_files():
-        if rel.startswith("theories/Model/"):
+        if rel.startswith("theories/Model/") or rel in ("theories/Proofs/AccRun.v", "theories/Proofs/SafeB.v", "theories/Proofs/ErrBound.v", "theories/Proofs/Tree.v"):
             parts.append(open(os.path.join(C.COQ, rel), encoding="utf-8").read())
     parts.append(open(os.path.join(C.COQ, "theories", "Extract", "Extract.v"), encoding="utf-8").read())
     parts.append(open(os.path.join(C.VERIF, "runner", "driver.ml"), encoding="utf-8").read())
@@ -197,7 +197,7 @@ def build_runner(force=False):
     stamp = os.path.join(RUNNER_DIR, "stamp")
     if not force and os.path.exists(RUNNER) and os.path.exists(stamp) and open(stamp).read() == h:
         return True, "cached"
-    ok, out = make(["theories/Model/Run.vo"])
+    ok, out = make(["theories/Model/Run.vo", "theories/Proofs/AccRun.vo"])
     if not ok:
         return False, out
     rc, out = C.sh(["coqc", "-noglob", "-Q", os.path.join(C.COQ, "theories"), "UomV",
